@@ -29,12 +29,13 @@ META = {
                   'shared page), every listed shared access is inside its lock, every page keeps x in every intermediate state, every call of a steadily '
                   'mocked function returns the mocked result (incl. callbacks calling the origin placeholder), other threads never change a thread\'s own '
                   'targets, each thread\'s targets and control state evolve exactly as in a run in which it alone is scheduled (isolation by solo simulation), and '
-                  'restoration at quiescence transfers from each builder\'s sequential run to every interleaving, with both locks free. '
+                  'for every program of the generator\'s class (any builder operation sequence ending in reset; callers) all mocked functions are pristine and both locks free '
+                  'at quiescence in every interleaving (quiescent_restored_builders, sequential part proved by a micro-step invariant). '
                   'The model is tied to the code by differential runs of the real API under -race.',
-    'level_note': 'Partial because: (0) that a single builder\'s sequential run ends pristine is the hypothesis of quiescent_restored (property C02\'s subject); here it is '
-                  'evaluated by the driver for every generated round, not proved for all programs; (1) data races on fields the model does not list are only covered by the Go race detector during the stress runs (a test); '
+    'level_note': 'Partial because: (1) data races on fields the model does not list are only covered by the Go race detector during the stress runs (a test); '
                   '(2) torn instruction fetch during the 13-byte entry write and CPU cross-modifying-code behaviour cannot be exhibited by the model - only '
-                  'crash-free stress (a test); (3) the 13-byte copy is one model step. internal/patch exports Unpatch/UnpatchInstanceMethod/UnpatchAll which '
+                  'crash-free stress (a test); (3) the 13-byte copy is one model step: Props states what that abstracts (CopyIsAtomic is refuted at byte level by copy_is_not_atomic_at_byte_level; '
+                  'write_excludes_calls proves no modelled thread calls a location while any thread is inside its WriteTo script). internal/patch exports Unpatch/UnpatchInstanceMethod/UnpatchAll which '
                   'touch the patch table WITHOUT patchesLock; they are unreachable from the builder API (verified by grep on every run) and therefore outside '
                   'the property. Trusted: Lean kernel, probe + canonicalisation, kernel mprotect semantics.',
 }
